@@ -143,7 +143,11 @@ package minruntime
 //@     decreases i + 1
 //@   lemma [pathsAreAncestorChains] isPath(r, preemptorPath, preemptorQueue) && isPath(r, preempteePath, preempteeQueue)
 //@   lemma [differentTopLevel] preemptorPath[0].UID != preempteePath[0].UID ==> result0.Duration == ite(preempteePath[0].ReclaimMinRuntime != nil, preempteePath[0].ReclaimMinRuntime.Duration, r.defaultReclaimMinRuntime.Duration)
-//@   lemma [startBelowLCA] preemptorPath[0].UID == preempteePath[0].UID ==> (exists l int :: 0 <= l && l < minLen(preemptorPath, preempteePath) && commonUpTo(preemptorPath, preempteePath, l) && (l + 1 < minLen(preemptorPath, preempteePath) ==> preemptorPath[l + 1].UID != preempteePath[l + 1].UID) && lcaIndex == ite(l + 1 < len(preempteePath), l + 1, l))
+//@   # the start index f = lcaIndex: everything above it is common to both paths, and f is the child of the LCA on the
+//@   # victim's path (first index where the paths differ, or where the preemptor's path ends), or the victim's own
+//@   # queue when that queue is itself a common ancestor
+//@   lemma [commonPrefixAboveStart] preemptorPath[0].UID == preempteePath[0].UID && lcaIndex >= 1 ==> commonUpTo(preemptorPath, preempteePath, lcaIndex - 1)
+//@   lemma [startIsChildOfLCA] preemptorPath[0].UID == preempteePath[0].UID ==> (lcaIndex < minLen(preemptorPath, preempteePath) && preemptorPath[lcaIndex].UID != preempteePath[lcaIndex].UID) || lcaIndex >= len(preemptorPath) || (lcaIndex == len(preempteePath) - 1 && commonUpTo(preemptorPath, preempteePath, lcaIndex))
 //@   lemma [walkUpFromStart] preemptorPath[0].UID == preempteePath[0].UID ==> 0 <= lcaIndex && lcaIndex < len(preempteePath) && result0.Duration == reclaimMR(r, preempteePath[lcaIndex])
 //@   ensures result1 == nil
 //@ end
